@@ -3,7 +3,7 @@ import copy, json, os, random, sys, collections
 from . import core, engine, gen, canon, oracles as O
 
 QUICK_N = {"default": 240}
-THOROUGH_MULT = 12
+THOROUGH_MULT = 200
 
 
 def _routes(a):
